@@ -545,6 +545,13 @@ def init(table, reload=False):
     assert ('density' in table.properties and 'mass' in table.properties), \
         "Neutron table requires mass and density properties"
 
+    # The class-level defaults assigned below replace the delayed-load
+    # property through which the public table finds its neutron data, so
+    # make sure the public table is loaded before filling a private one.
+    public = default_table()
+    if table is not public and 'neutron' not in public.properties:
+        init(public)
+
     # Defaults for missing neutron information
     missing = Neutron()
     Isotope.neutron = missing
